@@ -7,6 +7,7 @@ package main
 import (
 	"context"
 	"encoding/base64"
+	"fmt"
 	"time"
 
 	"github.com/emitter-io/emitter/internal/broker"
@@ -67,13 +68,32 @@ func cipherTerm(l license.License, c license.Cipher, salts [][2]byte) string {
 	}
 }
 
+// licences whose contract carries signature 0 (an "unsigned" contract must still pin the key's signature)
+func unsigned() []license.License {
+	a := license.NewV1()
+	a.Sign = 0
+	b := license.NewV2()
+	b.Sign = 0
+	return []license.License{a, b}
+}
+
+func verOf(l license.License) int {
+	switch l.(type) {
+	case *license.V1:
+		return 1
+	case *license.V2:
+		return 2
+	}
+	return 3
+}
+
 func main() {
 	cfg = vlib.ParseFlags()
 	r := cfg.Rng
 	sh := vlib.NewShards(cfg.Out, "C12", "From Emitter Require Import Lib.Base Model.MsgCodec Model.Channel Model.Cipher Model.Key Check.C12.", "case", "check", 40)
 	now := time.Now().Unix()
 
-	for vi, lic := range []license.License{license.NewV1(), license.NewV2(), license.NewV3()} {
+	for _, lic := range append([]license.License{license.NewV1(), license.NewV2(), license.NewV3()}, unsigned()...) {
 		c := config.NewDefault().(*config.Config)
 		c.License = lic.String()
 		c.Cluster = nil
@@ -169,9 +189,9 @@ func main() {
 			for k, p := range probes {
 				ps[k] = "(" + vlib.Str(p.channel) + ", " + vlib.N(uint64(p.perm)) + ", " + vlib.Bool(g0[k]) + ", " + vlib.Bool(g1[k]) + ")"
 			}
-			sh.Add(vlib.App("CMall", vlib.N(uint64(vi+1)), cipherTerm(lic, cipher, salts), vlib.Str(enc), vlib.Str(modStr),
+			sh.Add(vlib.App("CMall", vlib.N(uint64(verOf(lic))), cipherTerm(lic, cipher, salts), vlib.Str(enc), vlib.Str(modStr),
 				vlib.App("Contract", vlib.N(uint64(lic.Contract())), "1", vlib.N(uint64(lic.Signature())), "true"), vlib.Z(now), vlib.List(ps)),
-				map[string]interface{}{"op": "alter key", "licence": vi + 1, "modification": class, "key": []byte(key)}, "v"+string(rune('1'+vi))+"/"+class, true)
+				map[string]interface{}{"op": "alter key", "licence": verOf(lic), "modification": class, "key": []byte(key)}, fmt.Sprintf("v%d/%s", verOf(lic), class), true)
 		}
 		svc.Close()
 	}
